@@ -585,7 +585,9 @@ func (vc *VC) mergeStates(ins []*State) *State {
 			if m, ok := mergeVals(s.pc, x, y); ok {
 				out.xregs[v] = m
 			} else {
-				out.setTaint("incompatible values merged in a loop-exported register")
+				// the register's value becomes unknown after the join (a later use sees an unconstrained value)
+				fv, _ := vc.freshVal("xreg", v.Type())
+				out.xregs[v] = fv
 			}
 		}
 		// defers: union by ID
